@@ -273,9 +273,89 @@ def evaluate(case: dict) -> list[Violation]:
         g = case.get("graph")
         if g:
             viols.extend(_eval_graph(g, conv, utils, module))
+        r = case.get("type_ring")
+        if r:
+            viols.extend(_eval_type_ring(r, conv, module))
     finally:
         drop_core(pkg_name)
         sys.modules.pop(modname, None)
+    return viols
+
+
+# ---------------------------------------------------------------------------------------------
+# mutually referencing dataclass TYPES (what the generator emits for schemas that refer to each other), finite documents
+
+
+def _eval_type_ring(r: dict, conv, module) -> list[Violation]:
+    """n mapped dataclasses R0..R(n-1); Ri.next_items refers to R(i+1 mod n) through List / dict / Optional (real class objects in the
+    annotations, not strings).  The very first decode of these types in a fresh copy of the converter must already honour every
+    class's wire-key map; decode/encode must be inverse; a fresh module copy must agree."""
+    n = r["n"]
+    names = [f"Ring{i}" for i in range(n)]
+    classes = []
+    for i in range(n):
+        ns = {}
+        if r["meta"]:
+            ns["Meta"] = type("Meta", (), {"key_transform_with_load": {"labelName": "label_name", "next-items": "next_items", "class": "class_"},
+                                          "key_transform_with_dump": {"label_name": "labelName", "next_items": "next-items", "class_": "class"}})
+        kind = r["edges"][i]
+        default = dataclasses.field(default_factory=list) if kind == "list" else (dataclasses.field(default_factory=dict) if kind == "dict" else dataclasses.field(default=None))
+        cls = dataclasses.make_dataclass(names[i], [("label_name", str), ("class_", int), ("next_items", object, default)], namespace=ns)
+        cls.__module__ = module.__name__
+        setattr(module, names[i], cls)
+        classes.append(cls)
+    for i, cls in enumerate(classes):
+        tgt = classes[(i + 1) % n]
+        kind = r["edges"][i]
+        ann = typing.List[tgt] if kind == "list" else (dict[str, tgt] if kind == "dict" else (tgt | None))  # type: ignore[valid-type]
+        cls.__annotations__["next_items"] = ann
+        cls.__dataclass_fields__["next_items"].type = ann
+    lk, nk, ck = ("labelName", "next-items", "class") if r["meta"] else ("label_name", "next_items", "class_")
+
+    def doc(i: int, d: int):
+        kind = r["edges"][i % n]
+        out = {lk: f"r{i}", ck: i}
+        if d <= 0:
+            out[nk] = [] if kind == "list" else ({} if kind == "dict" else None)
+            if out[nk] is None:
+                del out[nk]
+        else:
+            child = doc(i + 1, d - 1)
+            out[nk] = [child, doc(i + 1, 0)] if kind == "list" else ({"k": child} if kind == "dict" else child)
+        return out
+
+    start = r["start"] % n
+    d0 = doc(start, r["depth"])
+    viols: list[Violation] = []
+    ref_pkg, ref_conv, _ = fresh_core()
+    try:
+        def run(c):
+            inst = c.structure_from_dict(d0, classes[start])
+            return inst, c.unstructure_to_dict(inst)
+
+        try:
+            inst, wire = run(conv)
+        except RecursionError as e:
+            return [Violation(("type_ring", "recursion_error", "-".join(r["edges"])), repr(e)[:200])]
+        except Exception as e:
+            return [Violation(("type_ring", "first_decode_raised", type(e).__name__), f"{e!r}"[:600] + f" ring={json.dumps(r)} doc={json.dumps(d0)[:300]}")]
+        def strip(x):  # an absent optional and an explicit null are the same document here (as in _norm_json)
+            if isinstance(x, dict):
+                return {k: strip(v) for k, v in x.items() if v is not None}
+            if isinstance(x, list):
+                return [strip(v) for v in x]
+            return x
+
+        if strip(wire) != strip(d0):
+            viols.append(Violation(("type_ring", "encode_decode_not_identity"), f"doc={json.dumps(d0)[:400]} got={json.dumps(wire, default=repr)[:400]} ring={json.dumps(r)}"))
+        try:
+            inst2, wire2 = run(ref_conv)
+            if strip(wire2) != strip(wire):
+                viols.append(Violation(("type_ring", "history_dependence"), f"{wire!r} vs fresh {wire2!r}"[:600]))
+        except Exception as e:
+            viols.append(Violation(("type_ring", "fresh_module_raised", type(e).__name__), f"{e!r}"[:400]))
+    finally:
+        drop_core(ref_pkg)
     return viols
 
 
@@ -535,9 +615,17 @@ def _strategies():
         return {"shape": shape, "n": n, "names": names, "next": nxt, "children": ch, "cyclic": cyclic, "meta": draw(st.booleans()),
                 "style": draw(st.sampled_from(["pep604_string", "optional_fwd"]))}
 
+    @st.composite
+    def type_ring(draw):
+        n = draw(st.integers(1, 3))
+        edges = draw(st.lists(st.sampled_from(["list", "dict", "opt"]), min_size=n, max_size=n))
+        return {"n": n, "edges": edges, "meta": draw(st.sampled_from([True, True, False])), "depth": draw(st.integers(1, 4)), "start": draw(st.integers(0, 2)),
+                "before_steps": draw(st.booleans())}
+
     case = st.fixed_dictionaries({
         "steps": st.lists(step(), min_size=1, max_size=5),
         "graph": st.one_of(st.none(), graph()),
+        "type_ring": st.one_of(st.none(), type_ring()),
     })
     return case
 
@@ -558,6 +646,12 @@ def classify(case: dict) -> tuple[bool, list[str]]:
     if len(set(names)) < len(names):
         labs.append("name_reused_in_history")
     labs.append(f"steps_{len(case['steps'])}")
+    r = case.get("type_ring")
+    if r:
+        labs.append(f"type_ring_{r['n']}")
+        labs.append("type_ring_" + "_".join(sorted(set(r["edges"]))))
+        if r["n"] >= 2 and r["meta"]:
+            nt = True
     g = case.get("graph")
     if g:
         labs.append("graph_" + g["shape"])
